@@ -345,6 +345,30 @@ pub fn dns_scenario(ch: &mut Chooser, thorough: bool) -> Exec {
                 }
             }
         }
+        // a long simulation looks names up over and over: 120 more rounds over all 600 names
+        // (72 000 lookups, more than the IPv4 subnet has addresses), with fresh names
+        // registered along the way
+        if violation.is_none() {
+            'rounds: for r in 0..120 {
+                for i in 0..600 {
+                    let _ = sim.lookup(format!("node-{i}").as_str());
+                }
+                if r >= 100 {
+                    for j in 0..2 {
+                        let name = format!("late-{r}-{j}");
+                        let ip = sim.lookup(name.as_str());
+                        if let Some(v) = check(&name, ip, &mut map, "lookup after tens of thousands of repeated lookups") {
+                            violation = Some(v);
+                            break 'rounds;
+                        }
+                        if sim.reverse_lookup(ip).as_deref() != Some(name.as_str()) {
+                            violation = Some(Violation::new("reverse", format!("reverse_lookup({ip}) = {:?}, expected {name}", sim.reverse_lookup(ip))));
+                            break 'rounds;
+                        }
+                    }
+                }
+            }
+        }
         obs.push(format!("600 names v6={v6}"));
     } else {
         let names = ["alpha", "beta", "alps", "gamma", "delta"];
